@@ -4,11 +4,13 @@ sys.path.insert(0, os.path.dirname(os.path.dirname(os.path.abspath(__file__))))
 import vlib
 
 MANIFEST = dict(
-    level=("proof", "Twenty-one Coq theorems over an executable model of path.c's directory walk (chains of any "
+    level=("proof", "Twenty-two Coq theorems over an executable model of path.c's directory walk (chains of any "
            "length: secure <-> every directory acceptable, first offender and complaint reported), the key/seed/log "
            "file vetting of conf.c/random.c/munged.c with the whole process identity (real/effective/saved uid and "
            "gid) as an explicit parameter and every rule stated for the EFFECTIVE uid, the order of the start-up "
            "checks, the mode/umask recipe of the five created files (all 512 umasks, foreground and daemon mode) and "
+           "which directory walks run as a function of the site and of what is at the file's name (verdict on the chain "
+           "proved independent of the leaf's prior state), "
            "their creation as an operation on the prior state of the directory entry (nothing / file of any type, "
            "owner, mode / symlink / dangling symlink: unlink-then-create vs open-in-place), proved for every prior "
            "state; flag values, permission bits, the flags each call site passes, the recipes, unlink-before-create "
@@ -502,6 +504,39 @@ def gen_daemon_cases(ctx):
                 c[site] = {"type": typ, "uid": e if (e != 0 or rng.random() < 0.5) else FOREIGN, "gid": 0,
                            "mode": rng.choice((0o666, 0o644, 0o600, 0o200, 0o640, 0o777)) | (0o600 if e != 0 else 0)}
         add("prior", c)
+    # --- the directory rules hold whatever is at the file's name already: every defect the property lists, on each
+    #     ancestor of each of the five names, crossed with {name free, file there with good owner/mode, file there
+    #     with bad mode} and foreground/daemon mode (a later start finds log, seed, pid file and a stale socket)
+    leafs = {
+        "key": [{"type": "reg", "uid": 0, "gid": 0, "mode": 0o600}, {"type": "reg", "uid": 0, "gid": 0, "mode": 0o400}],
+        "seed": [None, {"type": "reg", "uid": 0, "gid": 0, "mode": 0o600}, {"type": "reg", "uid": 0, "gid": 0, "mode": 0o644}],
+        "log": [None, {"type": "reg", "uid": 0, "gid": 0, "mode": 0o640}, {"type": "reg", "uid": 0, "gid": 0, "mode": 0o666}],
+        "sock": [None, {"type": "sock", "uid": 0, "gid": 0, "mode": 0o777}, {"type": "reg", "uid": 0, "gid": 0, "mode": 0o666}],
+        "pid": [None, {"type": "reg", "uid": 0, "gid": 0, "mode": 0o644}, {"type": "reg", "uid": FOREIGN, "gid": 0, "mode": 0o666}],
+    }
+    defects = [((FOREIGN, OGID, 0o755), None), ((0, OGID, 0o775), None), ((0, OGID, 0o757), None),
+               ((0, TGID, 0o775), TGID), ((0, OGID, 0o775), TGID), ((0, OGID, 0o1777), None)]
+    if T:
+        defects += [((FOREIGN, OGID, 0o1777), None), ((0, TGID, 0o777), TGID), ((EUID2, OGID, 0o755), None)]
+    cdepth = 5 if T else 3
+    k = 0
+    for site in SITES:
+        for leaf in leafs[site]:
+            for (attr, tg) in defects:
+                for pos in range(cdepth):
+                    for fg in ((False,) if site == "log" else (True, False)):
+                        k += 1
+                        c = base_case(fg=fg, euid=0, tg=tg, depth=cdepth, umask=(0o022, 0o077, 0o000)[k % 3])
+                        if k % 5 == 0:
+                            c["ids"] = (RUID2, 0, RGID2, 0)
+                        ch = list(c["dirs"][site])
+                        ch[pos] = attr
+                        c["dirs"][site] = ch
+                        if leaf is not None:
+                            c[site] = dict(leaf)
+                        if site == "sock" and leaf is not None and k % 2:
+                            c["lock"] = {"type": "reg", "uid": 0, "gid": 0, "mode": 0o200}   # left by the last run
+                        add("cross", c)
     # --- random combinations (order of the checks, several faults at once)
     for _ in range(8000 if T else 150):
         e = rng.choice((0, 0, 0, EUID2))
@@ -1013,7 +1048,9 @@ def run(ctx):
         "mode for all 512 umasks, existing seed/log/lock files, --force, random combinations; started with real != "
         "effective uid/gid and key/seed/log/lock/directories owned by the real, the effective, root's or a foreign "
         "uid; with a regular file of assorted owners and modes / symlink / dangling symlink / directory / FIFO / "
-        "socket already sitting at the pid, socket, lock, seed and log name); each answer judged by an independent "
+        "socket already sitting at the pid, socket, lock, seed and log name; every directory defect on each ancestor "
+        "of each of the five names crossed with name free / file there (good, bad mode) x foreground/daemon mode); "
+        "each answer judged by an independent "
         "statement of the property and diffed with the extracted model; non-trivial = every case")
     oracle = vlib.build_oracle(ctx, "path")
     R = vlib.REPO
